@@ -18,6 +18,15 @@ PROBES = rtdrv.PROBES + [{0: 1, 1: "a", 2: [1]}, [5, 6, 7], {"a": {"0": 1, 0: 2}
 
 
 def mutate_value(rng, v):
+    if rng.random() < 0.3:
+        # an ==-but-differently-typed twin (2 / 2.0, 1 / True / 1.0, 0 / False / 0.0): whether or not the two objects
+        # compare equal, equality must still imply the same behaviour (an int part indexes lists, a float part does not)
+        if isinstance(v, bool):
+            return rng.choice([int(v), float(v)])
+        if isinstance(v, int):
+            return float(v) if v not in (0, 1) else rng.choice([bool(v), float(v)])
+        if isinstance(v, float) and v == int(v):
+            return int(v)
     if isinstance(v, bool):
         return not v
     if isinstance(v, int):
@@ -255,6 +264,10 @@ def run(rep, tier, seed):
     if n["ok"]:
         raise tlc.MachineryError("leg A: negative configuration MC_Equality_ascoded.cfg was not rejected")
     rep.negative_cfgs.append("MC_Equality_ascoded.cfg (map-or-list part equality ignores key / index conditions)")
+    n2 = tlc.model_check("MC_Equality", "MC_Equality_loose.cfg")
+    if n2["ok"]:
+        raise tlc.MachineryError("leg A: negative configuration MC_Equality_loose.cfg was not rejected")
+    rep.negative_cfgs.append("MC_Equality_loose.cfg (arguments compared with python == alone: in_range(1, 5) == in_range(1.0, 5))")
     rng = random.Random(seed + 14)
     events, recipes = [], {}
     for _ in range(1800 if tier == "quick" else 30000):
